@@ -294,6 +294,51 @@ func c35Order(p *an.Prog, r *an.R, pkg, name string) {
 				return true
 			}
 			n++
+			// every element is removed: the os.Remove is a top-level statement of the loop (or the init of one)
+			// and no continue/break ahead of it can pass an element over
+			rmIdx := -1
+			innermost := true
+			for _, st := range body.List {
+				ast.Inspect(st, func(m ast.Node) bool {
+					switch y := m.(type) {
+					case *ast.RangeStmt:
+						if len(an.CallsTo(info, y.Body, false, remove)) > 0 {
+							innermost = false
+						}
+					case *ast.ForStmt:
+						if len(an.CallsTo(info, y.Body, false, remove)) > 0 {
+							innermost = false
+						}
+					}
+					return true
+				})
+			}
+			for si, st := range body.List {
+				if len(an.CallsTo(info, st, false, remove)) > 0 && rmIdx < 0 {
+					rmIdx = si
+				}
+			}
+			skipsElem := rmIdx < 0
+			if rmIdx >= 0 {
+				for _, st := range body.List[:rmIdx] {
+					if stmtLeavesIteration(st) {
+						skipsElem = true
+					}
+				}
+				// the removal itself must not be conditional on anything but its own error
+				switch st := body.List[rmIdx].(type) {
+				case *ast.IfStmt:
+					if st.Init == nil || len(an.CallsTo(info, st.Init, false, remove)) == 0 {
+						skipsElem = true
+					}
+				case *ast.AssignStmt, *ast.ExprStmt:
+				default:
+					skipsElem = true
+				}
+			}
+			r.Check(!skipsElem || !innermost, "C35.R2", fname+"/IndexFilePaths-every-file-removed", nd.Pos(),
+				"every file named by IndexFilePaths reaches os.Remove (no element of the loop is passed over)",
+				"an element of IndexFilePaths' result can be passed over by the removal loop (continue/break or a condition ahead of os.Remove): an input shard stays while its .meta sidecar - the tombstones - is removed, or the other way round, and a repository is visible in two shards")
 			r.Check(!reversed, "C35.R2", fname+"/IndexFilePaths-removed-in-order", nd.Pos(),
 				"the files named by IndexFilePaths are removed in the order returned (shard, then .meta)",
 				"the files named by IndexFilePaths are removed in reverse: the .meta sidecar (tombstones) goes before the shard, so a failure or kill in between leaves the shard loadable without its tombstones and tombstoned repositories re-appear next to their re-indexed copies")
@@ -376,4 +421,42 @@ func endsInTmp(info *types.Info, body ast.Node, e ast.Expr, depth int) bool {
 		return true
 	}
 	return false
+}
+
+// stmtLeavesIteration: st contains (outside nested loops and function literals) a continue, a labelled branch, a goto,
+// or a break that is not inside a switch/select of its own - i.e. control can go on to the next iteration or out of
+// the loop from within st.
+func stmtLeavesIteration(st ast.Stmt) bool {
+	leaves := false
+	var walk func(n ast.Node, inLoop, inSwitch bool)
+	walk = func(n ast.Node, inLoop, inSwitch bool) {
+		ast.Inspect(n, func(m ast.Node) bool {
+			if m == nil || m == n {
+				return true
+			}
+			switch x := m.(type) {
+			case *ast.FuncLit:
+				return false
+			case *ast.ForStmt, *ast.RangeStmt:
+				walk(m, true, false)
+				return false
+			case *ast.SwitchStmt, *ast.TypeSwitchStmt, *ast.SelectStmt:
+				walk(m, inLoop, true)
+				return false
+			case *ast.BranchStmt:
+				switch {
+				case x.Label != nil || x.Tok == token.GOTO:
+					leaves = true
+				case inLoop:
+				case x.Tok == token.CONTINUE:
+					leaves = true
+				case x.Tok == token.BREAK && !inSwitch:
+					leaves = true
+				}
+			}
+			return true
+		})
+	}
+	walk(st, false, false)
+	return leaves
 }
